@@ -65,6 +65,31 @@ def create(t: str, pattern_text: str, cname: str, template: dict | None = None):
     return p
 
 
+# composite patterns: most precise first; the predicate says whether the component represents the value fully
+COMPOSITES = {
+    "time": [("HH:mm:ss.FFFFFFFFF", lambda v: True), ("HH:mm:ss", lambda v: v.nanosecond_of_second == 0), ("HH:mm", lambda v: v.nanosecond_of_day % (60 * 10**9) == 0)],
+    "date": [("uuuu-MM-dd", lambda v: True), ("uuuu-MM", lambda v: v.day == 1)],
+    "datetime": [("uuuu-MM-dd'T'HH:mm:ss.FFFFFFFFF", lambda v: True), ("uuuu-MM-dd'T'HH:mm", lambda v: v.nanosecond_of_day % (60 * 10**9) == 0), ("uuuu-MM-dd", lambda v: v.nanosecond_of_day == 0)],
+    "instant": [("uuuu-MM-dd'T'HH:mm:ss.FFFFFFFFF'Z'", lambda v: True), ("uuuu-MM-dd'T'HH:mm'Z'", lambda v: v._time_since_epoch._nanosecond_of_floor_day % (60 * 10**9) == 0)],
+    "offset": [("+HH:mm:ss", lambda v: True), ("+HH:mm", lambda v: v.seconds % 60 == 0), ("+HH", lambda v: v.seconds % 3600 == 0)],
+    "duration": [("-D:hh:mm:ss.FFFFFFFFF", lambda v: True), ("-D:hh:mm", lambda v: v.to_nanoseconds() % (60 * 10**9) == 0)],
+    "annual": [("MM-dd", lambda v: True), ("MM", lambda v: v.day == 1)],
+}
+
+
+def composite(t: str, cname: str = "", upto: int = 9):
+    """(composite pattern, [(component pattern, predicate)]) built with the public CompositePatternBuilder."""
+    from pyoda_time.text._composite_pattern_builder import CompositePatternBuilder
+
+    b = CompositePatternBuilder()
+    comps = []
+    for text, pred in COMPOSITES[t][:upto]:
+        pat = create(t, text, cname)
+        b.add(pat, pred)
+        comps.append((pat, pred))
+    return b.build(), comps
+
+
 def make_value(t: str, j: dict) -> Any:
     from pyoda_time import AnnualDate, Duration, Instant, LocalTime, Offset
 
